@@ -46,7 +46,7 @@ Proof. split; [exact ex_ops_dom|exact ex_ops_result]. Qed.
    (a) Soundness of the parser model, for EVERY input: what decode returns are operations whose
    operator is over the parser's alphabet and whose operands are parsed values ([pv]: i64 integers,
    reals in the source syntax of the real parser, unique keys, u32/u16 references inside containers,
-   no stream, not a reference, nested within MAX_BRACKET levels), or one inline image whose
+   no stream, not a reference, nested within MAX_NESTING levels), or one inline image whose
    dictionary has unique keys, parsed values, implies exactly the data length and has Length set. *)
 Theorem C14_decoded_sound :
   forall bs ops, decode_content bs = DecOk ops -> Forall op_dec ops.
@@ -222,7 +222,7 @@ Theorem C14_deep_nesting_refuted :
 Proof. exact deep_witness_refutes. Qed.
 
 Theorem C14_deep_limit_example :
-  decode_content (encode_content [mkop "x" [nested 100]]) = DecOk [mkop "x" [nested 100]].
+  decode_content (encode_content [mkop "x" [nested MAX_DEPTH]]) = DecOk [mkop "x" [nested MAX_DEPTH]].
 Proof. exact deep_limit_ok. Qed.
 
 (* fixed finding C14-keyword-operator: an operator that merely begins with null / true / false / BI *)
